@@ -90,3 +90,63 @@ def replay_one(prop, path):
         print("VIOLATION property=%s replay=%s" % (prop, path))
         return 1
     return 0
+
+
+RESP_INV = ["TypeOK", "EncodeExact", "OutputCanonical", "FitsOrOneByteError", "Emit"]
+
+
+def plan_C02(chk, tier, seed):
+    cfgs = ["none", "all"] if tier == "quick" else ALL8
+    vectors(chk, "MC_Responses", "MC_Cases", cfgs, ["C02"], RESP_INV)
+    return ("every subset of the optional members of every response kind (exhaustive up to 9 optional members, "
+            "otherwise {}, all pairs, full), statement shapes, COSE key kinds, integer/byte/list lattices; TLC checks "
+            "EncodeExact on the model (generic parser vs table) and emits vectors replayed through "
+            "ctap2::Response::serialize and cbor_serialize; deviating vectors are adjudicated by the trace "
+            "specification on the OBSERVED bytes (same pair set, status byte, no null)")
+
+
+def plan_C03(chk, tier, seed):
+    cfgs = ["none", "all"] if tier == "quick" else ALL8
+    vectors(chk, "MC_Responses", "MC_Cases", cfgs, ["C03"], RESP_INV)
+    return ("every pair of members of every serialisable map type (plus exhaustive subsets of the small ones) in "
+            "each feature configuration, integers across the 1/2/3/5/9-byte head thresholds; TLC checks "
+            "OutputCanonical on the model; the observed bytes of every deviating vector are judged by "
+            "IsCanonical in the trace specification")
+
+
+def plan_C17(chk, tier, seed):
+    cfgs = ["none", "all"]
+    inv = ["TypeOK", "FitsOrOneByteError", "Emit"]
+    for cfg in cfgs:
+        run = "C17.MC_Buffer.%s" % cfg
+        r = run_scenario("MC_Buffer", cfg, "MC_Cases", inv, run=run)
+        chk.add_tlc(r)
+        judge_vectors(chk, cfg, r, run, ["C17"])
+        # two-exchange histories: the buffer is reused, the second response must not depend on the first
+        run = "C17.MC_Buffer.hist.%s" % cfg
+        r = tlc("MC_Buffer", scenario_cfg(cfg, "MC_HistCases", inv, max_exchanges=2) +
+                "PROPERTIES StaleIndependence\n", run)
+        if not r["ok"]:
+            raise ToolError("TLC %s failed:\n%s" % (run, "\n".join(r["log"][-30:])))
+        chk.add_tlc(r)
+        judge_vectors(chk, cfg, r, run, ["C17"])
+    return ("responses whose message length L is tuned so that L-N covers -3..2 for every instantiated capacity N "
+            "(1..130, 254..258, 1022..1026, 3070..3074, 64, 256, 1024, 3072, 7609), all-unset and body-less "
+            "responses at N=1,2,3, planted previous contents, two-exchange histories over a reused buffer; the "
+            "harness additionally serialises every response into a buffer with different previous contents and "
+            "into the 7609-byte buffer; judged on the observed bytes: complete message iff it fits, else exactly 0x7F")
+
+
+def judge_vectors(chk, cfg, r, run, props):
+    with open(r["vec_path"]) as f:
+        first = f.readline()
+        if first:
+            v = json.loads(first); v["cfg"] = cfg
+            chk.sample(v)
+    summary, recs = replay(cfg, r["vec_path"], run, props=props)
+    chk.replayed += summary.get("compared", 0)
+    bad = [x for x in recs if x.get("outcome") in ("panic", "hang") or x.get("match") is False]
+    adjudicate(chk, cfg, bad, run)
+
+
+PLANS.update({"C02": plan_C02, "C03": plan_C03, "C17": plan_C17})
